@@ -692,4 +692,25 @@ Record InvX (c : config) : Prop := {
   ix_drop : DropUnref c;
   ix_nofd : NoFd c
 }.
+
+Theorem invx_step_async c ch c' : InvX c -> step Async D F c ch = SStep c' -> InvX c'.
+Proof.
+  intros [[Δ Hc] Ht Hl Hns Hpv Hd Hnf] Hs.
+  assert (Hcu : closed_unused D Async c) by (intros self p0 k st; eapply topo_closed_unused; eauto).
+  destruct (preservation_md D F teq Hteq HF Async Δ c ch c' eq_refl Hc Hcu Hs) as (Δ' & _ & Hc').
+  pose proof (ns_ok_step _ _ _ _ _ _ Hns Hs) as Hns'.
+  assert (Hgoal : Rest c'); [|destruct Hgoal as (H1 & H2 & H3 & H4 & H5); split; eauto].
+  clear Hc' Hns' Δ'.
+  destruct ch as [p|s0 r0|f0 t0]; [|by cbn in Hs|by cbn in Hs]. cbn [step] in Hs.
+  destruct (procs c !! p) as [pp|] eqn:Hp; [|done].
+  destruct (action_of Async D pp) as [| |k m|k| |k pv|w] eqn:Ea; try done.
+  - destruct (dup_effect p pp) as [e|] eqn:He; [|done]. cbn [eff_step] in Hs. injection Hs as <-. eapply invx_dup; eauto.
+  - destruct (internal_effect Async F p pp) as [e|] eqn:He; [|done]. cbn [eff_step] in Hs. injection Hs as <-. eapply invx_internal; eauto.
+  - destruct (chans c !! k) as [st|] eqn:Hk; [|done]. destruct (ch_closed st) eqn:Hcl; [done|].
+    destruct (ch_buf st) eqn:Hb; [done|]. injection Hs as <-. eapply invx_send; eauto.
+  - destruct (chans c !! k) as [st|] eqn:Hk; [|done].
+    assert (Hcl : ch_closed st = false) by (eapply Hcu; eauto).
+    destruct (ch_buf st) as [m|] eqn:Hb; [|by rewrite Hcl in Hs].
+    destruct (on_message p pp m) as [e|] eqn:He; [|done]. cbn [eff_step] in Hs. injection Hs as <-. eapply invx_recv; eauto.
+Qed.
 End All.
